@@ -10,9 +10,12 @@ import Mathlib.Tactic.NormNum
 
 LTAN ↔ RAAN, Walker constellations, the sun-synchronous solver and the J2 node rate, the Lambert
 solver.  All formulas (`raan2ltan`, `ltan2raan`, `starRaan`, `starNu`, `deltaRaan`, `deltaNu`, `ssoI`,
-`ssoA`, `ssoE`, `j2NodeRate`, `meanMotion`, `lamC`, `lamS`, `lamY`, `lamF`, `lamDF`, `lamA`, `lamFG`) are
-*translated from the Python source on every run* (Generated/*.lean); the loops and the vector
-algebra are in lean/templates/Mission.tpl.  Part 2 (beta angle, B-plane): Props/C19Geom.lean.
+`ssoA`, `ssoE`, `j2NodeRate`, `j2Rates`, `meanMotion`, `lamC`, `lamS`, `lamY`, `lamF`, `lamDF`, `lamA`, `lamFG`, `lamDthetaSrc`,
+`betaSrc`, and the text of the `J2.orbit` accessors `j2OrbitGetter`, `j2OrbitSetter`) are
+*translated from the Python source on every run* (Generated/*.lean); the loops, the vector
+algebra and the state machine of the J2 propagator object are in lean/templates/Mission.tpl.
+Part 2 (beta angle, B-plane): Props/C19Geom.lean.  Part 3 (direction / way selection of `_lambert`, Kepler's
+equation): Props/C19Kepler.lean.  Witnesses: Witness/C19.lean.
 -/
 namespace BeyondVerif.C19
 open BeyondVerif.R BeyondVerif.NumReal
@@ -217,6 +220,77 @@ theorem sso_node_rate (a e mu re j2 : ℝ) (ha : 0 < a) (he : e ^ 2 ≠ 1) (hmu 
 example : -1 ≤ ssoCos 0 0 1 1 1 ∧ ssoCos 0 0 1 1 1 ≤ 1 := by
   have : ssoCos 0 0 1 1 1 = 0 := by simp [ssoCos, Real.zero_rpow]
   rw [this]; norm_num
+
+/-! ## The J2 propagator object: histories on ONE orbit object
+
+`sso_node_rate` is about the formulas; what a user observes is `orb.propagate(…)` on an `Orbit` object that carries
+a `J2` propagator, possibly after earlier propagations and in-place changes of its elements (`orb[2] = sso(a=a, e=e)`).
+`Model/Mission`: `J2Obj` (the user's orbit + the propagator's private copy), `J2Op`, `J2Obj.run`. -/
+
+/-- the setter of `J2.orbit` in the source today is one unconditional assignment (regenerated from the AST on every
+run): what the model's `j2Setter` does.  A setter that keeps its previous copy under some condition has another text. -/
+theorem j2_setter_unconditional : j2OrbitSetter = ["self._orbit = orbit.copy(form='keplerian_mean')"] := by decide
+
+/-- … and the getter hands out that private copy (never the user's orbit, so `Orbit.propagate` runs the setter at every call) -/
+theorem j2_getter_private_copy : j2OrbitGetter = ["return self._orbit if hasattr(self, '_orbit') else None"] := by decide
+
+theorem j2Rates_node (n re a e i j2 : ℝ) : (j2Rates n re a e i j2).1 = j2NodeRate n re a e i j2 := by
+  simp [j2Rates, j2NodeRate]
+
+/-- what the propagator object held before is irrelevant: the values returned along any history depend on the user's
+orbit only -/
+theorem j2_run_priv_irrelevant (mu re j2 : ℝ) (ops : List J2Op) : ∀ (u : MeanEl) (p q : Option MeanEl),
+    J2Obj.run mu re j2 ⟨u, p⟩ ops = J2Obj.run mu re j2 ⟨u, q⟩ ops := by
+  induction ops with
+  | nil => intro u p q; rfl
+  | cons op ops ih =>
+    intro u p q
+    cases op with
+    | setEl k v => simp only [J2Obj.run, J2Obj.step]; exact ih _ p q
+    | setDate t => simp only [J2Obj.run, J2Obj.step]; exact ih _ p q
+    | prop dt => simp only [J2Obj.run, J2Obj.step, j2Setter, Option.map_some]
+
+/-- **a read after in-place writes returns what a fresh object returns**: after ANY history of propagations, element
+writes and date writes on one orbit object, a propagation returns `j2Advance` of the *current* values of the user's
+orbit — a function of the current values only, nothing of the history survives in the propagator. -/
+theorem j2_history_fresh (mu re j2 : ℝ) (ops : List J2Op) : ∀ (s : J2Obj) (dt : ℝ),
+    J2Obj.run mu re j2 s (ops ++ [J2Op.prop dt])
+      = J2Obj.run mu re j2 s ops ++ [j2Advance mu re j2 (J2Obj.userAfter s.user ops) dt] := by
+  induction ops with
+  | nil => intro s dt; simp [J2Obj.run, J2Obj.step, j2Setter, J2Obj.userAfter]
+  | cons op ops ih =>
+    intro s dt
+    cases op with
+    | setEl k v => simp only [List.cons_append, J2Obj.run, J2Obj.step, J2Obj.userAfter]; exact ih _ dt
+    | setDate t => simp only [List.cons_append, J2Obj.run, J2Obj.step, J2Obj.userAfter]; exact ih _ dt
+    | prop d =>
+      simp only [List.cons_append, J2Obj.run, J2Obj.step, j2Setter, Option.map_some, J2Obj.userAfter]
+      rw [ih]
+
+/-- … in particular the result equals the one of a fresh object built from the current values -/
+theorem j2_history_eq_fresh_object (mu re j2 : ℝ) (ops : List J2Op) (s : J2Obj) (dt : ℝ) :
+    (J2Obj.run mu re j2 s (ops ++ [J2Op.prop dt])).getLast?
+      = (J2Obj.run mu re j2 ⟨J2Obj.userAfter s.user ops, none⟩ [J2Op.prop dt]).getLast? := by
+  rw [j2_history_fresh]
+  simp [J2Obj.run, J2Obj.step, j2Setter]
+
+/-- **sso → Orbit → propagate → tune in place → propagate**: whatever was done to the orbit object before (propagated
+with another inclination, elements rewritten in place), once its inclination is the one `sso(a=, e=)` gives for its
+current `a`, `e`, the next propagation over `dt` moves the node by `sunRate · dt` (mod 2π). -/
+theorem sso_tuned_in_place_node_rate (mu re j2 : ℝ) (ops : List J2Op) (s : J2Obj) (dt : ℝ)
+    (ha : 0 < (J2Obj.userAfter s.user ops).a) (he : (J2Obj.userAfter s.user ops).e ^ 2 ≠ 1)
+    (hmu : 0 < mu) (hre : re ≠ 0) (hj : j2 ≠ 0)
+    (hlo : -1 ≤ ssoCos (J2Obj.userAfter s.user ops).a (J2Obj.userAfter s.user ops).e mu re j2)
+    (hhi : ssoCos (J2Obj.userAfter s.user ops).a (J2Obj.userAfter s.user ops).e mu re j2 ≤ 1)
+    (hi : (J2Obj.userAfter s.user ops).i = ssoI (J2Obj.userAfter s.user ops).a (J2Obj.userAfter s.user ops).e mu re j2) :
+    ∃ out, (J2Obj.run mu re j2 s (ops ++ [J2Op.prop dt])).getLast? = some out ∧
+      out.raan = fmod ((J2Obj.userAfter s.user ops).raan + sunRate * dt) (2 * pi) := by
+  refine ⟨j2Advance mu re j2 (J2Obj.userAfter s.user ops) dt, by rw [j2_history_fresh]; simp, ?_⟩
+  simp only [j2Advance]
+  rw [j2Rates_node, hi, sso_node_rate _ _ mu re j2 ha he hmu hre hj hlo hhi]
+
+example : J2Obj.userAfter ⟨7e6, 0.01, 1, 2, 3, 4, 0⟩ [J2Op.prop 60, J2Op.setEl 2 1.7, J2Op.prop 60]
+    = ⟨7e6, 0.01, 1.7, 2, 3, 4, 0⟩ := by simp [J2Obj.userAfter, MeanEl.set]
 
 /-! ## Lambert's problem -/
 
